@@ -27,7 +27,7 @@ type c15Case struct {
 func init() {
 	engine.Register(&engine.Check{
 		ID: "C15", Level: "exploration",
-		Rule:        "2D: every point x every segment and every pair of segments (degenerate ones included) on the 4x4 integer grid, also scaled by 2^20 and translated; point-to-linestring for every polyline of <=3 vertices x every point; perpendicular distance for lines through two distinct points. 3D: every pair of segments with endpoints in {0,1}x{0,1,2}^2 (quick) / {0,1,2}^3 (thorough) - zero-length first/second/both, parallel, collinear, crossing, touching, skew, optimum outside the unit square in both parameters - plus scaled copies; every point x segment; Z = NaN for xyz.Distance. Oracle: exact rational squared distance (3D by exact minimisation over the clamped parameter square); |result - sqrt(exact)| <= 1e-9 x coordinate scale; never NaN; symmetric in argument order and direction. distinct_nontrivial = distinct argument tuples with non-zero exact distance or touching sets Also: point-to-linestring on 'star' zig-zags with every vertex count 2..70 and 96..1003 in strides 2..5, and long, nearly parallel 3D segments on the grid up to 2^20 (crossing, touching or skew by a few lattice steps); 2D lattice points on and one step beside long segments with rough integer coordinates up to 2^20 (point-segment, point-linestring, collinear segment pairs).",
+		Rule:        "2D: every point x every segment and every pair of segments (degenerate ones included) on the 4x4 (thorough 5x5) integer grid, also scaled by 2^20 and translated; point-to-linestring for every polyline of <=3 vertices x every point; perpendicular distance for lines through two distinct points. 3D: every pair of segments with endpoints in {0,1,2}^3 - zero-length first/second/both, parallel, collinear, crossing, touching, skew, optimum outside the unit square in both parameters - plus scaled copies; every point x segment; Z = NaN for xyz.Distance. Oracle: exact rational squared distance (3D by exact minimisation over the clamped parameter square); |result - sqrt(exact)| <= 1e-9 x coordinate scale; never NaN; symmetric in argument order and direction. distinct_nontrivial = distinct argument tuples with non-zero exact distance or touching sets Also: point-to-linestring on 'star' zig-zags with every vertex count 2..70 and 96..1003 in strides 2..5, and long, nearly parallel 3D segments on the grid up to 2^20 (crossing, touching or skew by a few lattice steps); 2D lattice points on and one step beside long segments with rough integer coordinates up to 2^20 (point-segment, point-linestring, collinear segment pairs).",
 		Run:         c15Run,
 		Replay:      func(c *engine.Ctx, kind string, raw json.RawMessage) { c15Exec(c, decodeCase[c15Case](raw)) },
 		Assumptions: []string{"integer-grid ordinates up to 2^20 (exact squared distances); perpendicular distance only for distinct line points"},
@@ -166,8 +166,12 @@ func c15Exec(c *engine.Ctx, cs c15Case) {
 
 func c15Run(c *engine.Ctx) {
 	var g4 [][2]float64
-	for x := 0; x < 4; x++ {
-		for y := 0; y < 4; y++ {
+	n2 := 4
+	if c.Thorough() {
+		n2 = 5
+	}
+	for x := 0; x < n2; x++ {
+		for y := 0; y < n2; y++ {
 			g4 = append(g4, [2]float64{float64(x), float64(y)})
 		}
 	}
@@ -205,10 +209,7 @@ func c15Run(c *engine.Ctx) {
 	})
 	// 3D
 	var g3 [][3]float64
-	xs := []float64{0, 1}
-	if c.Thorough() {
-		xs = []float64{0, 1, 2}
-	}
+	xs := []float64{0, 1, 2}
 	for _, x := range xs {
 		for y := 0; y < 3; y++ {
 			for z := 0; z < 3; z++ {
